@@ -185,6 +185,13 @@ def run_case(c, stats):
             core.report(PROP, "construct", "pda-differs-from-what-was-added",
                         {"got": repr(ref.key())[:200], "want": repr(want.key())[:200]}, ["form:" + str(c["p"].get("form"))])
         nt = any(ref.accepts_empty_stack(w) or ref.accepts_final(w) for w in words(ref.alpha))
+    if len(c["p"]["trans"]) % 4 == 2:
+        # a bystander PDA with the same state / stack values (one transition less) is converted first
+        by = gpda.build(dict(c["p"], trans=c["p"]["trans"][1:]))
+        call(by.to_cfg)
+        call(by.to_final_state)
+        call(by.to_empty_stack)
+        stats.cls("bystander_first")
     call(p.to_cfg)
     ok, f = call(p.to_final_state)
     ok2, e = call(p.to_empty_stack)
